@@ -46,7 +46,7 @@ def plans(tier, seed):
         [],
     ]
     out = list(curated)
-    n = 20 if tier == "quick" else 300
+    n = 90 if tier == "quick" else 800
     while len(out) < len(curated) + n:
         k = rng.choice([1, 2, 2, 3, 3])
         out.append([rng.choice(calls) for _ in range(k)])
